@@ -131,7 +131,14 @@ class Interp(object):
 
     def op_new_prop(self, name=None, values=None, parent=None, dtype=None, oid=None, unit=None,
                     uncertainty=None, reference=None, definition=None, dependency=None,
-                    dependency_value=None, value_origin=None, val_card=None):
+                    dependency_value=None, value_origin=None, val_card=None, value=None):
+        if value is not None:
+            prop = odml.Property(name=name, value=value, parent=parent, dtype=dtype, oid=oid,
+                                 unit=unit, uncertainty=uncertainty, reference=reference,
+                                 definition=definition, dependency=dependency,
+                                 dependency_value=dependency_value, value_origin=value_origin,
+                                 val_cardinality=val_card)
+            return {"new": self._reg(prop), "id_in": oid}
         prop = odml.Property(name=name, values=values, parent=parent, dtype=dtype, oid=oid,
                              unit=unit, uncertainty=uncertainty, reference=reference,
                              definition=definition, dependency=dependency,
@@ -314,6 +321,9 @@ class Interp(object):
             if pair not in self.U.merges:
                 self.U.merges.append(pair)
 
+    def op_merge_self(self, x):
+        x.merge()
+
     def op_set_link(self, x, path):
         x.link = path
 
@@ -472,7 +482,7 @@ class Interp(object):
 META_KEYS = {"op", "valid", "labels", "note"}
 REF_KEYS = {"t", "x", "y", "p", "d", "parent"}
 REFLIST_KEYS = {"xs"}
-VALUE_KEYS = {"v", "values", "date", "val_card", "sec_card", "prop_card", "uncertainty", "dtype"}
+VALUE_KEYS = {"v", "values", "value", "date", "val_card", "sec_card", "prop_card", "uncertainty", "dtype"}
 
 CARD_ATTR = {"val": "val_cardinality", "sec": "sec_cardinality", "prop": "prop_cardinality"}
 CARD_SETTER = {"val": "set_values_cardinality", "sec": "set_sections_cardinality",
